@@ -47,12 +47,14 @@ import (
 	"github.com/tikv/pd/pkg/cache"
 	"github.com/tikv/pd/pkg/mock/mockcluster"
 	"github.com/tikv/pd/server/core"
+	"github.com/tikv/pd/server/kv"
 	"github.com/tikv/pd/server/schedule"
 	"github.com/tikv/pd/server/schedule/checker"
 	"github.com/tikv/pd/server/schedule/operator"
 	"github.com/tikv/pd/server/schedule/placement"
 	"pdverif/simkit"
 	"pdverif/vkit"
+	"pdverif/vkit/faultkv"
 	"pgregory.net/rapid"
 )
 
@@ -101,6 +103,19 @@ type RuleSpec struct {
 	IsolationLevel string           `json:"isolation_level,omitempty"`
 }
 
+// RuleUpdate is one call on the rule manager made after the rules of the case
+// were installed.
+type RuleUpdate struct {
+	Kind          string     `json:"kind"`            // set (SetRule) | setrules (SetRules) | delete (DeleteRule) | group (SetRuleGroup)
+	Rules         []RuleSpec `json:"rules,omitempty"` // set: 1 rule, setrules: 2
+	ID            string     `json:"id,omitempty"`    // delete
+	GroupIndex    int        `json:"group_index,omitempty"`
+	GroupOverride bool       `json:"group_override,omitempty"`
+	// FailWrite: the n-th storage write of the call fails (clean failure, not
+	// applied). 0 = no fault armed: the update itself is invalid.
+	FailWrite int `json:"fail_write"`
+}
+
 // Case is one generated input.
 type Case struct {
 	Mode    string             `json:"mode"` // replica | rule
@@ -109,6 +124,11 @@ type Case struct {
 	Region  simkit.RegionSpec  `json:"region"`
 	Flags   Flags              `json:"flags"`
 	Rules   []RuleSpec         `json:"rules,omitempty"`
+	// Updates are further rule updates attempted after Rules were installed;
+	// each is made to fail at a storage write or is invalid, so it is refused
+	// and the served rules stay what they were (unless the update turns out to
+	// be a no-op that writes nothing: then it is accepted and changes nothing).
+	Updates []RuleUpdate `json:"updates,omitempty"`
 	// Constructive: the generator shaped the case towards the liveness clause
 	// (informational; the runner re-derives the obligation from the data).
 	Constructive bool `json:"constructive,omitempty"`
@@ -363,8 +383,92 @@ func genRuleCase(t *rapid.T) Case {
 		}
 		makeConstructive(t, &c, total)
 	}
+	if pct(t, 30, "refusedUpdates") {
+		c.Updates = genUpdates(t, &c)
+	}
 	c.Cluster.ReserveIDs(c.Region)
 	return c
+}
+
+// mutateRule draws a changed copy of a rule (what an operator of the cluster
+// would send to lower/raise a count, change the role or the constraints).
+func mutateRule(t *rapid.T, cl *simkit.ClusterSpec, r RuleSpec) RuleSpec {
+	r.Constraints = append([]ConstraintSpec(nil), r.Constraints...)
+	switch simkit.IntU(t, 0, 5, "mutation") {
+	case 0, 1, 2: // another count
+		var cs []int
+		for _, n := range []int{1, 2, 3, 4, 5} {
+			if n != r.Count {
+				cs = append(cs, n)
+			}
+		}
+		r.Count = simkit.Pick(t, cs, "newCount")
+		if r.Role == "leader" {
+			r.Role = "voter"
+		}
+	case 3:
+		r.Role = simkit.Pick(t, []string{"voter", "follower", "learner", "leader"}, "newRole")
+		if r.Role == "leader" {
+			r.Count = 1
+		}
+	case 4:
+		r.Constraints = nil
+		for k := simkit.IntU(t, 0, 2, "nNewConstraints"); k > 0; k-- {
+			r.Constraints = append(r.Constraints, genConstraint(t, cl))
+		}
+		for len(r.Constraints) > 0 && !anyStoreMatches(cl, r.Constraints) {
+			r.Constraints = r.Constraints[:len(r.Constraints)-1]
+		}
+	default:
+		r.Override = !r.Override
+		r.Index = simkit.IntU(t, 0, 3, "newIndex")
+	}
+	return r
+}
+
+// genUpdates draws 1-2 rule updates that are going to be refused: a storage
+// write of the update fails, or the update is invalid.
+func genUpdates(t *rapid.T, c *Case) []RuleUpdate {
+	var out []RuleUpdate
+	for n := simkit.IntU(t, 1, 2, "nUpdates"); n > 0; n-- {
+		base := simkit.Pick(t, c.Rules, "updatedRule")
+		var u RuleUpdate
+		switch simkit.Pick(t, []string{"set", "set", "set", "set", "setrules", "delete", "group", "new", "invalid"}, "updateKind") {
+		case "set":
+			u = RuleUpdate{Kind: "set", Rules: []RuleSpec{mutateRule(t, &c.Cluster, base)}, FailWrite: 1}
+		case "setrules":
+			other := simkit.Pick(t, c.Rules, "updatedRule2")
+			u = RuleUpdate{Kind: "setrules", Rules: []RuleSpec{mutateRule(t, &c.Cluster, base), mutateRule(t, &c.Cluster, other)},
+				FailWrite: simkit.IntU(t, 1, 2, "failWrite")}
+			if other.ID == base.ID {
+				u.Rules = u.Rules[:1]
+				u.FailWrite = 1
+			}
+		case "delete":
+			u = RuleUpdate{Kind: "delete", ID: base.ID, FailWrite: 1}
+		case "group":
+			u = RuleUpdate{Kind: "group", GroupIndex: simkit.IntU(t, 0, 3, "groupIndex"), GroupOverride: rapid.Bool().Draw(t, "groupOverride"), FailWrite: 1}
+		case "new":
+			r := mutateRule(t, &c.Cluster, base)
+			r.ID = "r9"
+			u = RuleUpdate{Kind: "set", Rules: []RuleSpec{r}, FailWrite: 1}
+		default: // refused by validation, no write is attempted
+			r := base
+			switch simkit.IntU(t, 0, 3, "invalidKind") {
+			case 0:
+				r.Count = 0
+			case 1:
+				r.Role, r.Count = "leader", 2
+			case 2:
+				r.Role = "witness"
+			default:
+				r.Constraints = []ConstraintSpec{{Key: "zone", Op: "in", Values: []string{"nowhere"}}}
+			}
+			u = RuleUpdate{Kind: "set", Rules: []RuleSpec{r}}
+		}
+		out = append(out, u)
+	}
+	return out
 }
 
 func genReplica(t *rapid.T) Case { return genReplicaCase(t) }
@@ -558,13 +662,13 @@ type fitView struct {
 	orphans []uint64 // stores of orphan peers
 }
 
-func (c *Case) viewOf(fit *placement.RegionFit) (*fitView, error) {
+func viewOf(rules []RuleSpec, fit *placement.RegionFit) (*fitView, error) {
 	v := &fitView{}
 	for _, rf := range fit.RuleFits {
 		var spec *RuleSpec
-		for i := range c.Rules {
-			if c.Rules[i].ID == rf.Rule.ID {
-				spec = &c.Rules[i]
+		for i := range rules {
+			if rules[i].ID == rf.Rule.ID {
+				spec = &rules[i]
 			}
 		}
 		if spec == nil {
@@ -637,9 +741,117 @@ func runCase(c Case) (vkit.Info, error) {
 	return info, err
 }
 
-func (c *Case) pdRules() []*placement.Rule {
+// served is the oracle's account of the rules the rule manager accepted.
+type served struct {
+	rules         []RuleSpec
+	groupIndex    int
+	groupOverride bool
+}
+
+func (m *served) set(r RuleSpec) {
+	for i := range m.rules {
+		if m.rules[i].ID == r.ID {
+			m.rules[i] = r
+			return
+		}
+	}
+	m.rules = append(m.rules, r)
+}
+
+func (m *served) has(id string) bool {
+	for _, r := range m.rules {
+		if r.ID == id {
+			return true
+		}
+	}
+	return false
+}
+
+// accept records an update the rule manager reported as accepted.
+func (m *served) accept(u RuleUpdate) {
+	switch u.Kind {
+	case "set", "setrules":
+		for _, r := range u.Rules {
+			m.set(r)
+		}
+	case "delete":
+		var out []RuleSpec
+		for _, r := range m.rules {
+			if r.ID != u.ID {
+				out = append(out, r)
+			}
+		}
+		m.rules = out
+	case "group":
+		m.groupIndex, m.groupOverride = u.GroupIndex, u.GroupOverride
+	}
+}
+
+// attempt makes the call of one update on the rule manager.
+func attempt(rm *placement.RuleManager, u RuleUpdate) error {
+	switch u.Kind {
+	case "set":
+		return rm.SetRule(pdRules(u.Rules)[0])
+	case "setrules":
+		return rm.SetRules(pdRules(u.Rules))
+	case "delete":
+		return rm.DeleteRule("pd", u.ID)
+	case "group":
+		return rm.SetRuleGroup(&placement.RuleGroup{ID: "pd", Index: u.GroupIndex, Override: u.GroupOverride})
+	}
+	return fmt.Errorf("harness: unknown update kind %q", u.Kind)
+}
+
+// referenceFit fits the region to the ACCEPTED rules: a second rule manager on
+// its own storage, never faulted, is given exactly the accepted rules. (The fit
+// function and the success path of the rule manager are trusted here: C12, C13.)
+func referenceFit(mc *mockcluster.Cluster, m *served, region *core.RegionInfo) (*placement.RegionFit, error) {
+	ref := placement.NewRuleManager(core.NewStorage(kv.NewMemoryKV()), mc)
+	rc := mc.GetReplicationConfig()
+	if err := ref.Initialize(int(rc.MaxReplicas), rc.LocationLabels); err != nil {
+		return nil, err
+	}
+	if err := ref.SetRules(pdRules(m.rules)); err != nil {
+		return nil, err
+	}
+	if !m.has("default") {
+		if err := ref.DeleteRule("pd", "default"); err != nil {
+			return nil, err
+		}
+	}
+	if m.groupIndex != 0 || m.groupOverride {
+		if err := ref.SetRuleGroup(&placement.RuleGroup{ID: "pd", Index: m.groupIndex, Override: m.groupOverride}); err != nil {
+			return nil, err
+		}
+	}
+	return ref.FitRegion(mc.BasicCluster, region), nil
+}
+
+// servedDiffers compares what GetAllRules serves with the accepted rules.
+func servedDiffers(rm *placement.RuleManager, m *served) string {
+	got := map[string]*placement.Rule{}
+	for _, r := range rm.GetAllRules() {
+		got[r.ID] = r
+	}
+	if len(got) != len(m.rules) {
+		return fmt.Sprintf("%d rules served, %d accepted", len(got), len(m.rules))
+	}
+	for _, w := range m.rules {
+		g := got[w.ID]
+		if g == nil {
+			return fmt.Sprintf("accepted rule %s is not served", w.ID)
+		}
+		if string(g.Role) != w.Role || g.Count != w.Count || len(g.LabelConstraints) != len(w.Constraints) ||
+			g.Index != w.Index || g.Override != w.Override || g.IsolationLevel != w.IsolationLevel {
+			return fmt.Sprintf("rule %s is served as %s, accepted was %+v", w.ID, g, w)
+		}
+	}
+	return ""
+}
+
+func pdRules(rules []RuleSpec) []*placement.Rule {
 	var out []*placement.Rule
-	for _, r := range c.Rules {
+	for _, r := range rules {
 		pr := &placement.Rule{GroupID: "pd", ID: r.ID, Index: r.Index, Override: r.Override,
 			Role: placement.PeerRoleType(r.Role), Count: r.Count,
 			LocationLabels: append([]string(nil), r.LocationLabels...), IsolationLevel: r.IsolationLevel}
@@ -731,15 +943,53 @@ func runOnce(c *Case, info *vkit.Info, rep int, tol *tolerance) (built bool, err
 		if mc.RuleManager == nil {
 			return false, fmt.Errorf("harness: placement rules requested but the mock cluster has no rule manager")
 		}
-		if e := mc.RuleManager.SetRules(c.pdRules()); e != nil {
+		// the rule manager under test lives on a storage whose writes can be made to fail
+		fkv := faultkv.New(kv.NewMemoryKV())
+		rm := placement.NewRuleManager(core.NewStorage(fkv), mc)
+		if e := rm.Initialize(c.Cluster.MaxReplicas, c.Cluster.LocationLabels); e != nil {
+			return false, fmt.Errorf("harness: rule manager does not initialise: %v", e)
+		}
+		mc.RuleManager = rm
+		if e := rm.SetRules(pdRules(c.Rules)); e != nil {
 			// the rule manager validates like the HTTP API does (e.g. "can not match any store")
 			if first {
 				info.Class("rules-rejected")
 			}
 			return false, nil
 		}
-		fit := mc.FitRegion(region)
-		if fv, err = c.viewOf(fit); err != nil {
+		model := &served{rules: append([]RuleSpec(nil), c.Rules...)}
+		for _, u := range c.Updates {
+			if u.FailWrite > 0 {
+				fkv.FailNth(u.FailWrite)
+			}
+			e := attempt(rm, u)
+			fkv.ResetCounters()
+			if e == nil {
+				model.accept(u) // nothing had to be written (a no-op), or the fault was beyond the last write
+			}
+			if first {
+				switch {
+				case e == nil:
+					info.Class("update-accepted")
+				case strings.Contains(e.Error(), faultkv.ErrInjected.Error()):
+					info.Class("update-refused:storage-failure")
+				default:
+					info.Class("update-refused:invalid")
+				}
+			}
+		}
+		if d := servedDiffers(rm, model); d != "" {
+			return false, fmt.Errorf("after the rule updates %+v the served rules differ from the accepted ones: %s", c.Updates, d)
+		}
+		// the oracle's fit: the region against the rules that were accepted
+		fit, e := referenceFit(mc, model, region)
+		if e != nil {
+			if first {
+				info.Class("reference-rules-rejected")
+			}
+			return false, nil
+		}
+		if fv, err = viewOf(model.rules, fit); err != nil {
 			return false, err
 		}
 	}
@@ -1032,7 +1282,7 @@ func (c *Case) optionsString() string {
 	}
 	sort.Strings(bad)
 	if c.Mode == "rule" {
-		return fmt.Sprintf("rules %+v, joint supported=%v used=%v, stores %v", c.Rules, c.Cluster.JointSupported, c.Cluster.UseJoint, bad)
+		return fmt.Sprintf("rules %+v, refused updates %+v, joint supported=%v used=%v, stores %v", c.Rules, c.Updates, c.Cluster.JointSupported, c.Cluster.UseJoint, bad)
 	}
 	return fmt.Sprintf("max-replicas %d, location labels %v, isolation level %q, flags %+v, joint supported=%v used=%v, stores %v",
 		c.Cluster.MaxReplicas, c.Cluster.LocationLabels, c.Cluster.IsolationLevel, c.Flags, c.Cluster.JointSupported, c.Cluster.UseJoint, bad)
